@@ -134,9 +134,24 @@ func singleScenario() *explore.Scenario {
 	return &explore.Scenario{Name: "single", C: -1, DataOnly: true, Body: func() {
 		name := mwNames[vs.Choose(len(mwNames), 0, "middleware")]
 		res := resultNames[vs.Choose(len(resultNames), 0, "handler result")]
-		cfg := name + "(" + res + ")"
+		// the context the message arrives with: plain, or already bound by a deadline of its sender (later or
+		// sooner than the Timeout middleware's own second)
+		incoming := []string{"plain", "deadline-in-1h", "deadline-in-100ms"}[vs.Choose(3, 0, "incoming context")]
+		cfg := name + "(" + res + ") incoming context " + incoming
 		bare := call(func(m *message.Message) ([]*message.Message, error) { return produce(res, m) }, newMsg())
 		msg := newMsg()
+		var foreignIn time.Duration
+		switch incoming {
+		case "deadline-in-1h":
+			foreignIn = time.Hour
+		case "deadline-in-100ms":
+			foreignIn = 100 * time.Millisecond
+		}
+		if foreignIn > 0 {
+			ctx, cancelForeign := context.WithTimeout(msg.Context(), foreignIn)
+			defer cancelForeign()
+			msg.SetContext(ctx)
+		}
 		start := vs.VirtualNow()
 		var inside struct {
 			ctxErr      error
@@ -174,7 +189,8 @@ func singleScenario() *explore.Scenario {
 		expectErrNil := bare.err == nil
 		switch name {
 		case "Timeout":
-			if !inside.hasDeadline || inside.deadlineIn <= 0 || inside.deadlineIn > time.Second {
+			// the sooner of the two deadlines is the one in force
+			if !inside.hasDeadline || inside.deadlineIn <= 0 || inside.deadlineIn > time.Second || (foreignIn > 0 && inside.deadlineIn > foreignIn) {
 				vs.Fail("timeout-deadline", "%s: deadline during the call: present=%v in %v", cfg, inside.hasDeadline, inside.deadlineIn)
 			}
 		case "InstantAck":
@@ -193,8 +209,11 @@ func singleScenario() *explore.Scenario {
 		if name != "InstantAck" && vs.PeekClosed(msg.Acked()) {
 			vs.Fail("no-settlement", "%s: middleware acked the message", cfg)
 		}
-		if name != "Timeout" && inside.hasDeadline {
+		if name != "Timeout" && foreignIn == 0 && inside.hasDeadline {
 			vs.Fail("no-deadline", "%s: unexpected deadline", cfg)
+		}
+		if name != "Timeout" && foreignIn > 0 && (!inside.hasDeadline || inside.deadlineIn > foreignIn || inside.deadlineIn < foreignIn-20*time.Millisecond) {
+			vs.Fail("no-deadline", "%s: the sender's deadline (in %v) is seen as present=%v in %v", cfg, foreignIn, inside.hasDeadline, inside.deadlineIn)
 		}
 		// panics
 		if bare.panicked {
